@@ -703,6 +703,42 @@ def part_d(h, tmp):
 
 
 # --------------------------------------------------------------------------------------------------------------------
+def part_f(h, tmp):
+    """F: a pathlib value is the path, also when the option was declared with enable_path=True and the path names an existing readable file
+    whose content would load as something: parse(dump(value)) == value from the command line and from a config file."""
+    files = {"notes.txt": "v1.2\n", "num.txt": "42", "cfg.yaml": "a: 1\n", "empty.txt": "", "missing.txt": None}
+    for name, content in files.items():
+        if content is not None:
+            with open(os.path.join(tmp, name), "w") as f:
+                f.write(content)
+    cwd = os.getcwd()
+    os.chdir(tmp)
+    try:
+        for T in (pathlib.Path, pathlib.PosixPath):
+            for enable in (True, False):
+                p = ArgumentParser(exit_on_error=False)
+                p.add_argument("--cfg", action=ActionConfigFile)
+                p.add_argument("--k", type=T, enable_path=enable)
+                for name in files:
+                    for spelled in (name, os.path.join(tmp, name)):
+                        want = T(spelled)
+                        dumped = outcome(p.dump, Namespace(k=want))
+                        if not h.check(dumped[0] == "ok", f"c20:pathlib-with-enable_path:{T.__name__}:{name}:dump-failed", f"dump failed: {dumped}", {"value": spelled}):
+                            continue
+                        with open("f.cfg", "w") as f:
+                            f.write(dumped[1])
+                        for chan, fn in (("argv", lambda: p.parse_args(["--k=" + spelled])), ("cfgfile", lambda: p.parse_args(["--cfg=f.cfg"])), ("object", lambda: p.parse_object({"k": spelled}))):
+                            r = outcome(fn)
+                            got = r[1].k if r[0] == "ok" else None
+                            ok = r[0] == "ok" and type(got) is type(want) and got == want
+                            what = "ok" if ok else "rejected" if r[0] != "ok" else "became-the-file's-content" if isinstance(got, pathlib.PurePath) else "became-" + type(got).__name__
+                            h.check(ok, f"c20:pathlib-with-enable_path:{T.__name__}:enable_path={enable}:{name}:{'abs' if os.path.isabs(spelled) else 'rel'}:{chan}:{what}",
+                                    f"{T.__name__}({spelled!r}) came back as {got!r} ({r[0]})", {"parser": f"add_argument('--k', type={T.__name__}, enable_path={enable})", "file content": files[name], "channel": chan})
+                        h.nontrivial(("F", T.__name__, enable, name, os.path.isabs(spelled)))
+    finally:
+        os.chdir(cwd)
+
+
 def part_e(h):
     """E: what an argument accepts does not depend on the default it was declared with (the statement's 'if and only if' has no
     clause about defaults): restricted types with no default, a valid default and a default outside the type, every candidate
@@ -748,6 +784,7 @@ def main():
                 "(thorough: and from a string), argv}, then List/Dict/Tuple/List[List] of the type; non-trivial = distinct (type, value). "
                 f"D: 16 hint shapes x {len(SECRETS)} secrets x input channels (object, argv, string, default) x 9 dump variants + print_config + save; non-trivial = "
                 "distinct (shape, channel, secret) whose parse result holds a SecretStr. "
+                "F: pathlib.Path / PosixPath options with enable_path on / off x 5 files (text, number, mapping, empty, missing) x relative / absolute x {argv, config file, object}. "
                 "E: 4 shipped restricted types x {no default, valid defaults, defaults outside the type} x 4-9 strings incl. the default's spelling x {parse_object, argv}.")
     # registries are restored at the end (types created here are not left behind in the imported module)
     snap = (dict(jt.registered_types), dict(jt.registered_type_handlers), dict(jt.registration_pending), set(vars(jt)))
@@ -759,6 +796,7 @@ def main():
             part_c(h, tmp)
             part_d(h, tmp)
             part_e(h)
+            part_f(h, tmp)
     finally:
         os.chdir(cwd)
         jt.registered_types.clear()
